@@ -703,7 +703,7 @@ def store_subscript(interp, o, t, v, st, aug):
     if isinstance(o, LocalArr) and getattr(st, "under", None):
         n0_ = len(o.stores)
         _store_local(interp, o, t, v, st, aug, idx)
-        ext = tuple(("under", c_, p_) for c_, p_ in st.under)
+        ext = tuple(("under", e_[0], e_[1]) for e_ in st.under if len(e_) < 3 or e_[2] is None or o.ident in e_[2])
         for k_ in range(n0_, len(o.stores)):
             if o.stores[k_][0] != "opaque": o.stores[k_] = o.stores[k_] + ext
         return
